@@ -894,6 +894,11 @@ fn is_defaultable(t: &Ty) -> bool {
 /// Rust rejects unused type parameters (E0392): add a PhantomData field for parameters that no
 /// field mentions — exactly what a human author has to do.
 pub fn make_compilable(def: &mut Def) {
+    // drop markers added by an earlier call (the definition may have been edited since)
+    match &mut def.kind {
+        DefKind::Struct(_, fs) => fs.retain(|f| !(f.name.as_deref() == Some("_marker") && matches!(f.ty, Ty::Phantom(_)))),
+        DefKind::Enum(vs) => vs.retain(|v| v.name != "__Phantom"),
+    }
     let np = def.params.len();
     if np == 0 {
         return;
